@@ -140,11 +140,110 @@ theorem canonEnc_mp {a b : GoVal} (h : MP a b) : canonEnc a = canonEnc b := by
 
 /-! ## `uniq` -/
 
+theorem uniqFormVals_eq_map (kvs : List (GoVal × GoVal)) :
+    uniqFormVals kvs = kvs.map fun kv => (kv.1, uniqForm kv.2) := by
+  induction kvs with
+  | nil => rfl
+  | cons kv r ih => obtain ⟨k, v⟩ := kv; simp [uniqFormVals, ih]
+
+theorem uniqFormFields_eq_map (fs : List (Bytes × GoVal)) :
+    uniqFormFields fs = fs.map fun kv => (GoVal.str kv.1, uniqForm kv.2) := by
+  induction fs with
+  | nil => rfl
+  | cons kv r ih => obtain ⟨k, v⟩ := kv; simp [uniqFormFields, ih]
+
+/-- what `uniq` compares is never the renderer's counter map: every map has become a `map[K]any` -/
+theorem isPrivMap_uniqForm : ∀ v : GoVal, isPrivMap (uniqForm v) = false
+  | .drop v => by simp only [ArrF.uniqForm]; exact isPrivMap_uniqForm v
+  | .ptr (.drop v) => by simp only [ArrF.uniqForm]; exact isPrivMap_uniqForm v
+  | .ptr .nil | .ptr (.bool _) | .ptr (.int _ _) | .ptr (.flt _ _) | .ptr (.str _) | .ptr (.bytes _)
+  | .ptr (.slice _ _) | .ptr (.array _ _) | .ptr (.map _ _ _) | .ptr (.mapSlice _) | .ptr (.keyedMap _)
+  | .ptr (.range _ _) | .ptr (.ptr _) | .ptr .nilPtr | .ptr (.struct _) | .ptr (.time _) => by
+    simp [ArrF.uniqForm, isPrivMap]
+  | .nil | .bool _ | .int _ _ | .flt _ _ | .str _ | .bytes _ | .slice _ _ | .array _ _ | .map _ _ _
+  | .mapSlice _ | .keyedMap _ | .range _ _ | .nilPtr | .struct _ | .time _ => by simp [ArrF.uniqForm, isPrivMap]
+
+theorem noPriv_uniqFormVals (kvs : List (GoVal × GoVal)) : NoPriv (uniqFormVals kvs) := by
+  rw [uniqFormVals_eq_map]
+  intro kv hkv
+  obtain ⟨kv', _, rfl⟩ := List.mem_map.mp hkv
+  exact isPrivMap_uniqForm _
+
+theorem noPriv_uniqFormFields (fs : List (Bytes × GoVal)) : NoPriv (uniqFormFields fs) := by
+  rw [uniqFormFields_eq_map]
+  intro kv hkv
+  obtain ⟨kv', _, rfl⟩ := List.mem_map.mp hkv
+  exact isPrivMap_uniqForm _
+
+theorem keysOK_uniqFormVals {kvs : List (GoVal × GoVal)} (hk : KeysOK kvs) : KeysOK (uniqFormVals kvs) := by
+  rw [uniqFormVals_eq_map]
+  refine ⟨?_, ?_⟩
+  · intro kv hkv
+    obtain ⟨kv', hkv', rfl⟩ := List.mem_map.mp hkv
+    exact hk.1 kv' hkv'
+  · rw [List.pairwise_map]; exact hk.2
+
+theorem keysTyped_uniqFormVals {kt : Ty} {kvs : List (GoVal × GoVal)} (hk : KeysTyped kt kvs) :
+    KeysTyped kt (uniqFormVals kvs) := by
+  rw [uniqFormVals_eq_map]
+  intro kv hkv
+  obtain ⟨kv', hkv', rfl⟩ := List.mem_map.mp hkv
+  exact hk kv' hkv'
+
+/-- the items of two related ordered maps, as the `MapItem` structs `uniq` compares -/
+theorem mapItems_mpv : ∀ {kvs kvs' : List (GoVal × GoVal)}, MPV kvs kvs' →
+    MPL (kvs.map fun kv => GoVal.struct [([], kv.1), ([], kv.2)]) (kvs'.map fun kv => GoVal.struct [([], kv.1), ([], kv.2)])
+  | _, _, .nil => .nil
+  | _, _, .cons k hv h => .cons (.struct (.cons [] (.refl k) (.cons [] hv .nil))) (mapItems_mpv h)
+
+mutual
+/-- what `uniq` compares of related elements is related -/
+theorem MP.uniqForm : ∀ {a b : GoVal}, MP a b → MP (uniqForm a) (uniqForm b)
+  | _, _, .refl _ => .refl _
+  | _, _, .slice _ hl => by simp only [ArrF.uniqForm]; exact .slice _ (MPL.uniqForm hl)
+  | _, _, .array _ hl => by simp only [ArrF.uniqForm]; exact .slice _ (MPL.uniqForm hl)
+  | _, _, .map kt _ _ hk _ hm hp ht => by
+    simp only [ArrF.uniqForm]
+    refine .map kt .any (by decide) (keysOK_uniqFormVals hk) (noPriv_uniqFormVals _) (MPV.uniqForm hm) ?_ (keysTyped_uniqFormVals ht)
+    rw [uniqFormVals_eq_map, uniqFormVals_eq_map]; exact hp.map _
+  | _, _, .mapVals kt _ _ _ hm => by
+    simp only [ArrF.uniqForm]
+    exact .mapVals kt .any (by decide) (noPriv_uniqFormVals _) (MPV.uniqForm hm)
+  | _, _, .mapSlice hm => by simp only [ArrF.uniqForm]; exact .slice _ (mapItems_mpv hm)
+  | _, _, .keyedMap _ hf => by
+    simp only [ArrF.uniqForm]
+    exact .mapVals .str .any (by decide) (noPriv_uniqFormFields _) (MPF.uniqForm hf)
+  | _, _, .struct hf => by simp only [ArrF.uniqForm]; exact .struct hf
+  | _, _, .drop h => by simp only [ArrF.uniqForm]; exact MP.uniqForm h
+  | _, _, .ptr (.refl _) => .refl _
+  | _, _, .ptr (.drop h) => by simp only [ArrF.uniqForm]; exact MP.uniqForm h
+  | _, _, .ptr (.slice t h) => by simp only [ArrF.uniqForm]; exact .ptr (.slice t h)
+  | _, _, .ptr (.array t h) => by simp only [ArrF.uniqForm]; exact .ptr (.array t h)
+  | _, _, .ptr (.map kt vt h1 h2 h3 h4 h5 h6) => by simp only [ArrF.uniqForm]; exact .ptr (.map kt vt h1 h2 h3 h4 h5 h6)
+  | _, _, .ptr (.mapVals kt vt h1 h2 h3) => by simp only [ArrF.uniqForm]; exact .ptr (.mapVals kt vt h1 h2 h3)
+  | _, _, .ptr (.mapSlice h) => by simp only [ArrF.uniqForm]; exact .ptr (.mapSlice h)
+  | _, _, .ptr (.keyedMap h1 h2) => by simp only [ArrF.uniqForm]; exact .ptr (.keyedMap h1 h2)
+  | _, _, .ptr (.struct h) => by simp only [ArrF.uniqForm]; exact .ptr (.struct h)
+  | _, _, .ptr (.ptr h) => by simp only [ArrF.uniqForm]; exact .ptr (.ptr h)
+theorem MPL.uniqForm : ∀ {xs ys : List GoVal}, MPL xs ys → MPL (uniqFormList xs) (uniqFormList ys)
+  | _, _, .nil => .nil
+  | _, _, .cons hx h => by simp only [uniqFormList]; exact .cons (MP.uniqForm hx) (MPL.uniqForm h)
+theorem MPV.uniqForm : ∀ {xs ys : List (GoVal × GoVal)}, MPV xs ys → MPV (uniqFormVals xs) (uniqFormVals ys)
+  | _, _, .nil => .nil
+  | _, _, .cons k hv h => by simp only [uniqFormVals]; exact .cons k (MP.uniqForm hv) (MPV.uniqForm h)
+theorem MPF.uniqForm : ∀ {xs ys : List (Bytes × GoVal)}, MPF xs ys → MPV (uniqFormFields xs) (uniqFormFields ys)
+  | _, _, .nil => .nil
+  | _, _, .cons k hv h => by simp only [uniqFormFields]; exact .cons (.str k) (MP.uniqForm hv) (MPF.uniqForm h)
+end
+
+/-- related elements have the same key in `uniq` -/
+theorem uniqKey_mp {a b : GoVal} (h : MP a b) : uniqKey a = uniqKey b := canonEnc_mp h.uniqForm
+
 theorem uniqOn_mp : ∀ {xs ys : List GoVal}, MPL xs ys → ∀ seen : List String,
-    MPL (uniqOn canonEnc seen xs) (uniqOn canonEnc seen ys)
+    MPL (uniqOn uniqKey seen xs) (uniqOn uniqKey seen ys)
   | _, _, .nil, _ => .nil
   | _, _, .cons hx h, seen => by
-    simp only [uniqOn, canonEnc_mp hx]
+    simp only [uniqOn, uniqKey_mp hx]
     split
     · exact uniqOn_mp h seen
     · exact .cons hx (uniqOn_mp h _)
